@@ -154,8 +154,12 @@ class _H(object):
         self.path = path
 
     def handle(self, args, io, command):
+        # a handler reads its arguments every way the API offers (set values, full listings with defaults, by name)
         CALLS.append([list(self.path), sorted((k, repr(v)) for k, v in args.arguments(False).items()),
-                      sorted((k, repr(v)) for k, v in args.options(False).items())])
+                      sorted((k, repr(v)) for k, v in args.options(False).items()),
+                      sorted((k, repr(v)) for k, v in args.arguments().items()),
+                      sorted((k, repr(v)) for k, v in args.options().items()),
+                      sorted((k, repr(args.option(k)), args.is_option_set(k)) for k in args.options())])
         io.write_line("ran " + " ".join(self.path))
         return 0
 
